@@ -516,9 +516,18 @@ func HistoryTree.ProveMembership
 // pair, start == end included (the membership pruning collects the left siblings only, not the
 // leaf the incremental verifier reads: an honest proof built from it is rejected).
 // ASSUMED (definition of the ghosts; the pruning itself is not verified):
+// What IS proved of the pruning (run-time panics not checked): it walks the tree OF THE END VERSION
+// (the start version's tree is too small whenever end has more bits than start: the end leaf and
+// the frozen subtrees to its right would never be collected) with both versions as its targets.
+func pruneToCheckConsistency.traverse
+  ensures !isnil(result)
 func pruneToCheckConsistency
+  props C03
+  unchecked_panics
   modifies consPrunes, lastConsStart, lastConsEnd
   assumes consPrunes == old(consPrunes) + 1 && lastConsStart == start && lastConsEnd == end && !isnil(result)
+  at newRootPosition assert C03/the-pruning-walks-the-tree-of-the-end-version: arg0 == end
+  at pruneToCheckConsistency.traverse assert C03/both-versions-are-targets: start <= end ==> len(arg1) >= 1 && arg1[0] == start && arg1[len(arg1) - 1] == end
 // a history tree that can hand out proofs: its hasher factory is there and returns hashers
 define HistProver(t) = t != nil && t.hasherF != nil && nonnil_fn(t.hasherF)
 func HistoryTree.ProveConsistency
